@@ -542,6 +542,29 @@ def switches_on_call_value(body, rx):
     several paths: [(switch_bb, true_target, false_target, call_bb)], targets w.r.t. the call's result."""
     if isinstance(rx, str):
         rx = re.compile(rx)
+
+
+def copy_root(body, l):
+    """Follow whole-local `x = copy/move y` chains (single definition each) back to the first local."""
+    ba = BA.of(body)
+    seen = set()
+    while l is not None and l not in seen:
+        seen.add(l)
+        d = ba.single_def(l)
+        if d is None or d[0] != "stmt" or d[3]["k"] != "use":
+            return l
+        p = op_place(d[3]["op"])
+        if p is None or p["p"]:
+            return l
+        l = p["l"]
+    return l
+
+
+def eq_const_edges(body, is_x, value):
+    """CFG edges [(switch_bb, target)] taken exactly when `x == value`, for any local x accepted by
+    is_x(local): the equal side of a bool switch on `x == value` / `x != value` (either operand order,
+    through `!` and copies), and the `value` arm of an integer `match x` when that arm's target is not
+    shared with another arm or with the default (`0 | 1 =>` yields no edge for 0)."""
     ba = BA.of(body)
     out = []
     for i in sorted(ba.live):
@@ -558,4 +581,32 @@ def switches_on_call_value(body, rx):
         for (neg, cbb, ct) in bool_value_calls(body, t["discr"]):
             if call_matches(ct, rx):
                 out.append((i, f_t, t_t, cbb) if neg else (i, t_t, f_t, cbb))
+
+
+        if t["t"] != "switch":
+            continue
+        bs = ba.bool_switch(i)
+        if bs:
+            t_t, f_t, (kind, info) = bs
+            if kind != "binop" or t_t == f_t:
+                continue
+            rv = info[1]
+            if rv["op"] not in ("Eq", "Ne"):
+                continue
+            if const_int(rv["b"]) == value and is_x(op_local(rv["a"])):
+                pass
+            elif const_int(rv["a"]) == value and is_x(op_local(rv["b"])):
+                pass
+            else:
+                continue
+            out.append((i, t_t if rv["op"] == "Eq" else f_t))
+        elif re.fullmatch(r"[iu](8|16|32|64|128|size)", t["discr_ty"]) and "enum" not in t:
+            if not is_x(op_local(t["discr"])):
+                continue
+            arms = {v: tg for v, tg in t["arms"]}
+            if value not in arms:
+                continue
+            others = [tg for v, tg in t["arms"] if v != value] + [t["otherwise"]]
+            if arms[value] not in others:
+                out.append((i, arms[value]))
     return out
